@@ -1,0 +1,112 @@
+//go:build verif
+
+package tbtc
+
+import (
+	"context"
+	"crypto/ecdsa"
+	"encoding/hex"
+	"math/big"
+
+	"github.com/keep-network/keep-core/pkg/protocol/group"
+	"github.com/keep-network/keep-core/pkg/tecdsa"
+)
+
+// Thin exported wrappers used by the out-of-tree verification harness (property C36).
+// They add no behaviour of their own.
+
+// VerifC36ActivityReport mirrors signingActivityReport.
+type VerifC36ActivityReport struct {
+	Active   []group.MemberIndex
+	Inactive []group.MemberIndex
+}
+
+// VerifC36SignFn is the harness stub behind heartbeatSigningExecutor.sign.
+type VerifC36SignFn func(
+	ctx context.Context,
+	message *big.Int,
+	startBlock uint64,
+) (*tecdsa.Signature, *VerifC36ActivityReport, uint64, error)
+
+// VerifC36ClaimFn is the harness stub behind heartbeatInactivityClaimExecutor.claimInactivity.
+type VerifC36ClaimFn func(
+	ctx context.Context,
+	inactiveMembersIndexes []group.MemberIndex,
+	heartbeatFailed bool,
+	sessionID *big.Int,
+) error
+
+type verifC36Signer struct{ fn VerifC36SignFn }
+
+func (s *verifC36Signer) sign(
+	ctx context.Context,
+	message *big.Int,
+	startBlock uint64,
+) (*tecdsa.Signature, *signingActivityReport, uint64, error) {
+	sig, rep, end, err := s.fn(ctx, message, startBlock)
+	var report *signingActivityReport
+	if rep != nil {
+		report = &signingActivityReport{
+			activeMembers:   rep.Active,
+			inactiveMembers: rep.Inactive,
+		}
+	}
+	return sig, report, end, err
+}
+
+type verifC36Claimer struct{ fn VerifC36ClaimFn }
+
+func (c *verifC36Claimer) claimInactivity(
+	ctx context.Context,
+	inactiveMembersIndexes []group.MemberIndex,
+	heartbeatFailed bool,
+	sessionID *big.Int,
+) error {
+	return c.fn(ctx, inactiveMembersIndexes, heartbeatFailed, sessionID)
+}
+
+// VerifC36Counter wraps the real heartbeatFailureCounter.
+type VerifC36Counter struct {
+	c *heartbeatFailureCounter
+}
+
+// VerifC36NewCounter calls newHeartbeatFailureCounter.
+func VerifC36NewCounter() *VerifC36Counter {
+	return &VerifC36Counter{c: newHeartbeatFailureCounter()}
+}
+
+// Get calls heartbeatFailureCounter.get for the key execute() uses for the wallet.
+func (c *VerifC36Counter) Get(walletPublicKey *ecdsa.PublicKey) (uint, error) {
+	b, err := marshalPublicKey(walletPublicKey)
+	if err != nil {
+		return 0, err
+	}
+	return c.c.get(hex.EncodeToString(b)), nil
+}
+
+// VerifC36HeartbeatExecute builds a heartbeatAction with newHeartbeatAction and calls execute().
+func VerifC36HeartbeatExecute(
+	chain Chain,
+	walletPublicKey *ecdsa.PublicKey,
+	sign VerifC36SignFn,
+	proposal *HeartbeatProposal,
+	counter *VerifC36Counter,
+	claim VerifC36ClaimFn,
+	startBlock uint64,
+	expiryBlock uint64,
+	waitForBlock func(context.Context, uint64) error,
+) error {
+	action := newHeartbeatAction(
+		logger,
+		chain,
+		wallet{publicKey: walletPublicKey},
+		&verifC36Signer{fn: sign},
+		proposal,
+		counter.c,
+		&verifC36Claimer{fn: claim},
+		startBlock,
+		expiryBlock,
+		waitForBlock,
+	)
+	return action.execute()
+}
